@@ -18,3 +18,4 @@ def check(ctx, rep):
     K.rule_classification(ctx, rep)
     K.rule_shared_counters(ctx, rep)
     S.rule_D3(ctx, rep, 'R3-D3', methods=('stats',))
+    S.rule_forwarding_impls(ctx, rep, 'R3-F1', methods=('stats',))
